@@ -5,3 +5,16 @@ add('C20', 'Hypothesis generated states + round-trip / reference-cubic (Vieta de
     'as a zero-slope inflection. Exploration only: no absence proof.',
     'Trusted: R(J/mol/K) from pmutt.constants (judged by C12), float64 arithmetic of the oracle; near-critical states judged at 1e-3.',
     'DESIGN.md 3/C20')
+add('C17', 'Hypothesis model-based operation sequences (insert/pop/reload histories) vs exact integral reference model',
+    'Generated histories of construction + up to 6 insert/pop/pop(0)/reload operations on PiecewiseCovEffect, with an invariant after every '
+    'step: breakpoints ascending, (breakpoint, slope) multiset equal to the model, value at coverages on/between/beyond breakpoints at two '
+    'temperatures equal to the exactly integrated reference, continuity at every breakpoint, zero S/Cv/Cp, unchanged by dict and JSON reload. '
+    'Exploration only.',
+    'Trusted: R(kcal/mol/K) from pmutt.constants; order among exactly coincident breakpoints is left to the library.',
+    'DESIGN.md 3/C17')
+add('C12', 'exhaustive enumeration of the unit tables (pairs, triples, cross-type pairs, derived relations, elements) + Hypothesis numeric arguments',
+    'Every ordered pair and triple of units within each quantity type and every cross-type pair is enumerated (exhaustive for the finite tables, '
+    'read from the current source), every derived/definitional relation is checked to the rounding of the literals involved, all 118 elements '
+    'are checked by number vs symbol, and random numeric arguments / compositions exercise linearity. Finite part exhaustive; numeric part exploration.',
+    'Trusted: literal precision is read from constants.py with ast (<=2 significant digits = exact, floor 1e-9); periodic table Z->symbol in the harness.',
+    'DESIGN.md 3/C12')
